@@ -602,7 +602,7 @@ def geojson_cases(draw):
 SUBS = [
     Sub("bounds_grammar", lambda tier: bounds_strings(), check_bounds, quick=1500, thorough=20000),
     Sub("geojson_arguments", lambda tier: geojson_cases(), check_geojson_argument, quick=40, thorough=200),
-    Sub("clip_command", lambda tier: command_cases("clip"), check_command, quick=80, thorough=300),
+    Sub("clip_command", lambda tier: command_cases("clip"), check_command, quick=130, thorough=400),
     Sub("extract_points_command", lambda tier: command_cases("extract-points"), check_command,
         quick=70, thorough=300),
     Sub("export_geometry_command", lambda tier: command_cases("export-geometry"), check_command,
